@@ -221,11 +221,16 @@ impl Span {
         let a_1 = self.end();
         let b_1 = other.end();
 
-        let (l, r) = match (a_0 < b_0, a_1 < b_1) {
-            (true, true) => (Some((a_0, b_0)), Some((b_1, a_1))),
-            (true, _)    => (Some((a_0, b_0)), None),
-            (_,    true) => (None,             Some((b_1, a_1))),
-            _            => (None,             None),
+        // The left piece ends where `other` starts (clipped to `self`), and
+        // the right piece starts where `other` ends (clipped to `self`).
+        let l_end = std::cmp::min(b_0, a_1);
+        let r_start = std::cmp::max(b_1, a_0);
+
+        let (l, r) = match (a_0 < b_0, b_1 < a_1) {
+            (true, true) => (Some((a_0, l_end)), Some((r_start, a_1))),
+            (true, _)    => (Some((a_0, l_end)), None),
+            (_,    true) => (None,               Some((r_start, a_1))),
+            _            => (None,               None),
         };
 
         let l = l.map(|(a, b)| Self::enclosing(a, b));
